@@ -20,8 +20,9 @@ func init() {
 			"R6.3 a post-pass over the emitted text must not rewrite the lines of a multi-line literal (known finding: trailing spaces inside a backtick literal are trimmed), and it returns the text trimmed at its end (line breaks replayed in front of the end of the input would otherwise make the output differ from its own re-formatting); " +
 			"R6.4 in both pretty modes no two adjacent lexemes fuse (= R1.2 restricted to pretty output), so pretty and compact output lex to the same token sequence; " +
 			"R6.5 the flush of pending layout leaves nothing pending on any return (cleared, or found empty), so layout cannot be replayed in front of a later write; " +
+			"R6.7 a printer that changes the indentation level follows every line-break request by an indent request before the next text; " +
 			"R6.6 the separator check hands the comments of a consumed ';' on to the following token (the no-semicolon printer places the restored ';' behind the comments of the statement it protects, so a second formatting would lose them otherwise).",
-		notDecided: []string{"equality of trees after re-parse", "byte-for-byte idempotence of formatting (where the pending-whitespace machine puts layout)", "that indentation changes only LEADING whitespace (R6.1 shows only whitespace can differ, not where)"},
+		notDecided: []string{"equality of trees after re-parse", "byte-for-byte idempotence of formatting beyond the necessary conditions R6.5-R6.7 and the end trim of R6.3 (where the pending-whitespace machine puts layout in general)", "that indentation changes only LEADING whitespace (R6.1 shows only whitespace can differ, not where)"},
 	})
 }
 
@@ -57,6 +58,122 @@ func runC06(c *Ctx) {
 	c.rule("R6.6", "comments in front of a consumed statement separator stay in the program: the separator check hands the ';' token's trivia on to the token behind it (the no-semicolon printer puts a restored ';' behind the comments of the statement it protects, so on re-formatting those comments lead the ';')")
 	c.floor(1)
 	ruleSeparatorTriviaKept(c)
+
+	c.rule("R6.7", "in a printer that changes the indentation level, every line-break request is followed by an indent request before the next text on every path (the comment replay does not count: it indents only when the token carries trivia)")
+	c.floor(1)
+	ruleIndentAfterNewline(c)
+}
+
+// ruleIndentAfterNewline (R6.7). A printer that changes the indentation level asks for the line break and for the
+// indentation of the next line separately. If the indent request is missing on some path, the next text is
+// indented only when its token happens to carry trivia (the comment replay ends with its own newline + indent), so
+// a `}` that closed a one-line block comes out at column 0 — and on the second formatting, where it now stands on a
+// line of its own and carries a line-break marker, it is indented: the output is not a fixed point (seed C06-1).
+// Decided per printer that calls a level-changing writer method: from every line-break request, every path reaches
+// an indent request before the next text write, child print or return; the comment replay does not count.
+func ruleIndentAfterNewline(c *Ctx) {
+	c.buildSSA()
+	w := c.writerCfg()
+	nl := c.fn("(*ast.CodeWriter).WriteNewline")
+	ind := c.fn("(*ast.CodeWriter).WriteIndent")
+	replay := c.fn("(*ast.CodeWriter).WriteLeadingComments")
+	if w == nil || nl == nil || ind == nil {
+		c.unres("writer methods", token.NoPos, "WriteNewline / WriteIndent not found")
+		return
+	}
+	// writer methods that change the level
+	levelFns := map[*ssa.Function]bool{}
+	for _, f := range c.libFunctions("ast") {
+		if f.Signature.Recv() == nil || !namedIs(f.Signature.Recv().Type(), "ast", "CodeWriter") {
+			continue
+		}
+		allInstrs(f, func(_ *ssa.BasicBlock, _ int, in ssa.Instruction) {
+			if st, ok := in.(*ssa.Store); ok {
+				if _, ok := isFieldAddr(st.Addr, w.level); ok {
+					levelFns[f] = true
+				}
+			}
+		})
+	}
+	isWriterMethod := func(cal *ssa.Function) bool {
+		return cal != nil && cal.Signature.Recv() != nil && namedIs(cal.Signature.Recv().Type(), "ast", "CodeWriter")
+	}
+	n := 0
+	for _, nt := range nodeTypes(c) {
+		m := methodFn(c, nt, "WriteTo")
+		if m == nil {
+			continue
+		}
+		changes := false
+		var reqs []*ssa.Call
+		allInstrs(m, func(_ *ssa.BasicBlock, _ int, in ssa.Instruction) {
+			if call, ok := in.(*ssa.Call); ok {
+				if levelFns[call.Call.StaticCallee()] {
+					changes = true
+				}
+				if call.Call.StaticCallee() == nl {
+					reqs = append(reqs, call)
+				}
+			}
+		})
+		if !changes {
+			continue
+		}
+		for ri, req := range reqs {
+			n++
+			key := fmt.Sprintf("%s: line-break request #%d is followed by an indent request", nt.Obj().Name(), ri+1)
+			bad := ""
+			seen := map[*ssa.BasicBlock]bool{}
+			var walk func(b *ssa.BasicBlock, from ssa.Instruction)
+			walk = func(b *ssa.BasicBlock, from ssa.Instruction) {
+				started := from == nil
+				for _, in := range b.Instrs {
+					if !started {
+						if in == from {
+							started = true
+						}
+						continue
+					}
+					if bad != "" {
+						return
+					}
+					switch x := in.(type) {
+					case *ssa.Call:
+						cal := x.Call.StaticCallee()
+						switch {
+						case cal == ind:
+							return // indented
+						case cal == nl, cal == replay, levelFns[cal]:
+							// another line-break request, the comment replay, a level change: not text
+						case x.Call.IsInvoke() && x.Call.Method.Name() == "WriteTo":
+							bad = "a child is printed at " + c.pos(x.Pos())
+							return
+						case isWriterMethod(cal):
+							if cal.Name() == "AddMapping" || cal.Name() == "AddNamedMapping" {
+								continue
+							}
+							bad = "text is written (" + cal.Name() + ") at " + c.pos(x.Pos())
+							return
+						}
+					case *ssa.Return:
+						bad = "the printer returns at " + c.pos(x.Pos())
+						return
+					}
+				}
+				for _, succ := range b.Succs {
+					if !seen[succ] {
+						seen[succ] = true
+						walk(succ, nil)
+					}
+				}
+			}
+			walk(req.Block(), req)
+			c.check(bad == "", key, req.Pos(), "every path reaches WriteIndent before the next text", "after this line-break request "+bad+" without an indent request in between: the next line is indented only when its first token carries trivia, so a one-line block's closing brace comes out at column 0 and the second formatting moves it (the output is not a fixed point)")
+		}
+	}
+	if n == 0 {
+		c.unres("printers that change the indentation level", token.NoPos, "none found that also requests line breaks")
+	}
 }
 
 // ruleSeparatorTriviaKept (R6.6). Formatting `a; // c⏎(b)` without semicolons gives `a // c⏎;(b)`: the restored ';'
